@@ -1169,22 +1169,26 @@ fn c14(cases_path: &str, out: &mut dyn Write) {
         let tname = c["tmpl"].as_str().unwrap_or("");
         let Some((_, op, tree)) = tmpls.iter().find(|(n, _, _)| *n == tname) else { continue };
         let base = xmlgen::render(tree, &Style::default());
-        let base = base.strip_suffix(EOM).unwrap_or(&base).replace("@ID@", if c["op"] == "hugeint" { "@ID@" } else { "2" });
-        let g = mutate(base.as_bytes(), c["op"].as_str().unwrap_or("none"), c["p"].as_u64().unwrap_or(0) as usize,
-                       c["q"].as_u64().unwrap_or(0) as usize, c["seed"].as_u64().unwrap_or(k as u64));
-        let gid = strict_header_id(&g);
-        let _ = lenient_id(&g);
-        let mut ev = json!({"ev": "c14", "case": k, "c": c, "gid": gid.map(|x| x as i64).unwrap_or(-1), "glen": g.len()});
+        let base0 = base.strip_suffix(EOM).unwrap_or(&base).to_string();
+        // the damaged message is made once the message-id of the request it answers is known (the ids are the
+        // library's business); for a hello there is none
+        let make = |id2: &str| -> Vec<u8> {
+            let base = base0.replace("@ID@", if c["op"] == "hugeint" { "@ID@" } else { id2 });
+            mutate(base.as_bytes(), c["op"].as_str().unwrap_or("none"), c["p"].as_u64().unwrap_or(0) as usize,
+                   c["q"].as_u64().unwrap_or(0) as usize, c["seed"].as_u64().unwrap_or(k as u64))
+        };
+        let mut ev = json!({"ev": "c14", "case": k, "c": c});
         let op = *op;
         let r = std::panic::catch_unwind(std::panic::AssertUnwindSafe(|| {
             if op == "hello" {
+                let g = make("2");
                 let (t, ctl) = vh::memtransport::mem_transport();
                 ctl.push(g.clone());
                 let mut est: BoxFut<Result<netconf::Session<_>, netconf::Error>> = Box::pin(netconf::Session::verif_with_transport(t));
                 return match drive(&mut est, 8) {
-                    Driven::Ready(Ok(_)) => json!({"hello": "ok"}),
-                    Driven::Ready(Err(e)) => json!({"hello": "err", "err": err_class(&e)}),
-                    Driven::Hung => json!({"hello": "hang"}),
+                    Driven::Ready(Ok(_)) => json!({"hello": "ok", "gid": -1, "glen": g.len()}),
+                    Driven::Ready(Err(e)) => json!({"hello": "err", "err": err_class(&e), "gid": -1, "glen": g.len()}),
+                    Driven::Hung => json!({"hello": "hang", "gid": -1, "glen": g.len()}),
                 };
             }
             let mut ws = WSess::with_caps(ALL_CAPS);
@@ -1211,9 +1215,22 @@ fn c14(cases_path: &str, out: &mut dyn Write) {
                 };
                 futs.push(f);
             }
+            // the message-ids the three requests went out with
+            let ids: Vec<u64> = ws.ctl.sent().iter().skip(1).filter_map(|m| message_id_of(m)).collect();
+            let (id1, id2, id3) = (ids.first().copied().unwrap_or(1), ids.get(1).copied().unwrap_or(2), ids.get(2).copied().unwrap_or(3));
+            let g = make(&id2.to_string());
+            // gid in the events: 1 / 2 / 3 = the header names that request, -1 = no readable header, 900 = another id
+            let gid: i64 = match strict_header_id(&g) {
+                None => -1,
+                Some(x) if x == id2 => 2,
+                Some(x) if x == id1 => 1,
+                Some(x) if x == id3 => 3,
+                Some(_) => 900,
+            };
+            let _ = lenient_id(&g);
             ws.ctl.push(g.clone());
-            ws.ctl.push(reply_msg(1, "<ok/>"));
-            ws.ctl.push(reply_msg(3, "<ok/>"));
+            ws.ctl.push(reply_msg(id1, "<ok/>"));
+            ws.ctl.push(reply_msg(id3, "<ok/>"));
             let mut res: Vec<String> = vec!["pending".into(); 3];
             let mut round = |futs: &mut Vec<Option<BoxFut<Result<(), netconf::Error>>>>, res: &mut Vec<String>| {
                 for i in 0..3 {
@@ -1236,7 +1253,7 @@ fn c14(cases_path: &str, out: &mut dyn Write) {
             if res.iter().any(|r| r == "pending") {
                 // the garbage could not be attributed (or was swallowed): the server now answers request 2 properly
                 let body = match op { "get" => "<data>x</data>", "open-configuration" => "", "load-configuration" => "<load-configuration-results><ok/></load-configuration-results>", _ => "<ok/>" };
-                ws.ctl.push(reply_msg(2, body));
+                ws.ctl.push(reply_msg(id2, body));
                 resupplied = true;
             }
             // the receive lock is handed over in FIFO order, so a future may need another poll
@@ -1246,7 +1263,7 @@ fn c14(cases_path: &str, out: &mut dyn Write) {
                     round(&mut futs, &mut res);
                 }
             }
-            json!({"res": res, "resupplied": resupplied})
+            json!({"res": res, "resupplied": resupplied, "gid": gid, "glen": g.len()})
         }));
         match r {
             Ok(o) => {
